@@ -80,6 +80,7 @@ def run(prog, rep, tier='quick', config='default'):
         return
     m = matchers[0]
     r19g(prog, rep, fns)
+    r19i(prog, rep)
     # ------------------------------------------------------------------ R19a
     adds = [c for c in m.calls if re.search(r'time::Date::(saturating_add|checked_add)$|ops::Add<time::Duration>', c.callee)]
     n = days_of(prog, m, adds[0].args[1]) if adds else None
@@ -452,3 +453,190 @@ def r19g(prog, rep, fns):
             rep.ok('R19g', k, where=c.where(), fn=f.name, detail='%s are added unconditionally and unfiltered' % what)
     if n < 2:
         rep.violation('R19g', 'anchor-lost:collector-feeds', fn=f.name, detail='anchor lost: only %d feed sites of the collected benefit / trade lists found' % n)
+
+
+# ---------------------------------------------------------------------------------------------------- R19i
+def r19i(prog, rep):
+    """a trade confirmation keeps its own fees: the commission of the BrokerTx built from a confirmation contains the commission line
+    whenever there is one, and the fee line whenever there is one. The two optional capture groups are followed through the Option
+    algebra of the expression (zip / map / or / and / unwrap_or.. / +, through helper functions and `?`), for each of the four
+    presence combinations; where the expression is not of that form (a `match`), only the plain dependency on both groups is required."""
+    import regexgroups as rg
+    ATOMS = ('commission', 'fee')
+    COMBOS = [(c, f) for c in (0, 1) for f in (0, 1)]
+
+    class Unknown(Exception):
+        pass
+
+    def atom_of(fn, c):
+        if not re.search(r'Option<', fn.ty.get(c.dst['l'], '') or ''):
+            return None
+        for a in c.args:
+            v = None
+            if a.get('k') == 'const':
+                v = a.get('v')
+            elif mir.is_place(a):
+                o = mir.provenance(fn, a)
+                vs = [x for (t, x, *_r) in o.consts if 'str' in t]
+                v = vs[0] if len(vs) == 1 and not o.params and not o.calls else None
+            try:
+                sv = rg.decode_rust_str(v) if v else None
+            except rg.Unsupported:
+                sv = None
+            if sv in ATOMS:
+                return sv
+        return None
+
+    def ev(fn, operand, depth=0):
+        """{combo: ('none',) | ('some', atoms) | ('val', atoms)}"""
+        if depth > 40:
+            raise Unknown('too deep')
+        if operand.get('k') == 'const':
+            return {cb: ('val', frozenset()) for cb in COMBOS}
+        pl = operand['pl']
+        l = pl['l']
+        d = fn.single_def(l)
+        if d is None:
+            raise Unknown('local _%d has several definitions' % l)
+        bb, idx, kind, node = d
+        if kind == 'stmt':
+            r = node['r']
+            if r['rv'] in ('use', 'ref', 'cast') and r.get('ops', [None])[0] is not None and (r['rv'] != 'ref'):
+                return ev(fn, r['ops'][0], depth + 1)
+            if r['rv'] == 'ref':
+                return ev(fn, {'k': 'copy', 'pl': r['pl']}, depth + 1)
+            if r['rv'] == 'agg' and r['kind'].endswith('Option::Some') and r['ops']:
+                x = ev(fn, r['ops'][0], depth + 1)
+                return {cb: ('some', v[1] if v[0] != 'none' else frozenset()) for cb, v in x.items()}
+            if r['rv'] == 'agg' and r['kind'].endswith('Option::None'):
+                return {cb: ('none',) for cb in COMBOS}
+            if r['rv'] == 'binop' and r['op'] in ('Add', 'Sub'):
+                x, y = ev(fn, r['ops'][0], depth + 1), ev(fn, r['ops'][1], depth + 1)
+                return {cb: ('val', x[cb][1] | y[cb][1]) for cb in COMBOS}
+            raise Unknown('statement %s' % r['rv'])
+        c = fn.call_at[bb]
+        a = atom_of(fn, c)
+        if a is not None:
+            i = ATOMS.index(a)
+            return {cb: (('some', frozenset([a])) if cb[i] else ('none',)) for cb in COMBOS}
+        args = c.args
+        sh = c.short
+        isopt = re.search(r'^std::option::Option', c.callee) is not None
+        if sh == 'branch' or (sh in ('unwrap', 'expect', 'clone', 'cloned', 'copied', 'into', 'from', 'deref', 'as_ref', 'ok', 'transpose') and args):
+            return ev(fn, args[0], depth + 1)
+        if isopt and sh == 'zip':
+            x, y = ev(fn, args[0], depth + 1), ev(fn, args[1], depth + 1)
+            return {cb: (('some', x[cb][1] | y[cb][1]) if x[cb][0] == 'some' and y[cb][0] == 'some' else ('none',)) for cb in COMBOS}
+        if isopt and sh in ('map', 'inspect', 'filter'):
+            x = ev(fn, args[0], depth + 1)
+            if sh == 'filter':
+                raise Unknown('Option::filter')
+            return x
+        if isopt and sh in ('or', 'xor'):
+            x, y = ev(fn, args[0], depth + 1), ev(fn, args[1], depth + 1)
+            return {cb: (x[cb] if x[cb][0] == 'some' else y[cb]) for cb in COMBOS}
+        if isopt and sh == 'and':
+            x, y = ev(fn, args[0], depth + 1), ev(fn, args[1], depth + 1)
+            return {cb: (y[cb] if x[cb][0] == 'some' else ('none',)) for cb in COMBOS}
+        if isopt and sh in ('unwrap_or', 'unwrap_or_default', 'unwrap_or_else', 'map_or', 'map_or_else'):
+            x = ev(fn, args[0], depth + 1)
+            return {cb: ('val', x[cb][1] if x[cb][0] == 'some' else frozenset()) for cb in COMBOS}
+        if re.search(r'ops::(Add|Sub)::(add|sub)$', c.decl) and len(args) == 2:
+            x, y = ev(fn, args[0], depth + 1), ev(fn, args[1], depth + 1)
+            return {cb: ('val', x[cb][1] | y[cb][1]) for cb in COMBOS}
+        if re.search(r'iter::Sum|Iterator::sum$', c.decl):
+            raise Unknown('sum over an iterator')
+        g = prog.resolve(c.callee, fn.crate)
+        if g is not None and g.kind in ('Fn', 'AssocFn') and g.crate == fn.crate and depth < 20:
+            # a helper of the module: what it returns (the payload of Ok(..) / Some(..) for a `?` at the call site)
+            outs = []
+            for b in g.blocks.values():
+                for st in b['stmts']:
+                    if st['dst']['l'] == 0 and not st['dst']['p']:
+                        r = st['r']
+                        if r['rv'] == 'agg' and (r['kind'].endswith('Result::Ok') or r['kind'].endswith('Option::Some')) and r['ops']:
+                            outs.append(ev(g, r['ops'][0], depth + 1))
+                        elif r['rv'] == 'agg' and r['kind'].endswith('Result::Err'):
+                            continue
+                        elif r['rv'] == 'use':
+                            outs.append(ev(g, r['ops'][0], depth + 1))
+                        else:
+                            raise Unknown('return of %s' % g.name)
+            gc = [x for x in g.calls if x.dst['l'] == 0 and x.short != 'from_residual']
+            for x in gc:
+                outs.append(ev(g, {'k': 'copy', 'pl': {'l': 0, 'p': []}}, depth + 1) if False else _ev_call_result(g, x, depth))
+            if len(outs) == 1:
+                return outs[0]
+            if len(outs) > 1 and all(o == outs[0] for o in outs):
+                return outs[0]
+            raise Unknown('helper %s returns on several paths' % g.name)
+        raise Unknown('call of %s' % c.callee)
+
+    def _ev_call_result(g, x, depth):
+        raise Unknown('helper result produced by a call')
+
+    n = 0
+    for f in prog.product_fns():
+        if mir.is_testsupport(f.name) or not f.name.startswith('peripheral::broker::etrade'):
+            continue
+        for b in f.blocks.values():
+            for st in b['stmts']:
+                r = st['r']
+                if r['rv'] != 'agg' or 'broker_tx::BrokerTx' not in r['kind'] or 'commission' not in r.get('fields', []):
+                    continue
+                o = r['ops'][r['fields'].index('commission')]
+                org = mir.deep_origins(prog, f, o) if hasattr(mir, 'deep_origins') else mir.provenance(f, o, follow_all_call_args=True)
+                plain = mir.provenance(f, o, follow_all_call_args=True)
+                names = set()
+                for src in (plain,):
+                    for (t, v, *_r) in src.consts:
+                        try:
+                            sv = rg.decode_rust_str(v) if 'str' in t else None
+                        except rg.Unsupported:
+                            sv = None
+                        if sv in ATOMS:
+                            names.add(sv)
+                # helper functions on the way: their constants
+                for x in plain.calls:
+                    g = prog.resolve(x.callee, f.crate)
+                    if g is not None and g.crate == f.crate and g.name.startswith('peripheral::broker::etrade'):
+                        for gg in [g] + list(prog.callees_closure([g]).values()):
+                            if not gg.name.startswith('peripheral::broker::etrade'):
+                                continue
+                            for co in mir.const_operands(gg):
+                                try:
+                                    sv = rg.decode_rust_str(co.get('v', '')) if 'str' in co.get('ty', '') else None
+                                except rg.Unsupported:
+                                    sv = None
+                                if sv in ATOMS:
+                                    names.add(sv)
+                if not names:
+                    continue        # not a confirmation with optional charge lines (a benefit entry with a stated fee)
+                n += 1
+                k = '%s|confirmation-keeps-its-own-fees' % f.name.split('::{')[0]
+                if names != set(ATOMS):
+                    rep.violation('R19i', k, where=f.where(st), fn=f.name,
+                                  detail='the commission of the trade is computed without the %s line of the confirmation' % ', '.join(sorted(set(ATOMS) - names)))
+                    continue
+                try:
+                    val = ev(f, o)
+                except Unknown as e:
+                    # (a key of its own: a weaker verdict on one view must not discharge the stronger obligation on the other)
+                    rep.ok('R19i', k.replace('confirmation-keeps-its-own-fees', 'commission-depends-on-both-lines'), where=f.where(st), fn=f.name,
+                           detail='depends on both the commission and the fee line (not an Option-combinator expression — %s — so only the dependency is decided)' % e)
+                    continue
+                missing = []
+                for cb in COMBOS:
+                    have = val[cb][1] if val[cb][0] != 'none' else frozenset()
+                    for i, a in enumerate(ATOMS):
+                        if cb[i] and a not in have:
+                            missing.append((cb, a))
+                if missing:
+                    cb, a = missing[0]
+                    rep.violation('R19i', k, where=f.where(st), fn=f.name,
+                                  detail='when the confirmation has %s, the %s line does not reach the commission of the trade: a manual trade loses its own fees'
+                                         % (' and '.join(x for i, x in enumerate(('a commission line', 'a fee line')) if cb[i]) or 'neither line', a))
+                else:
+                    rep.ok('R19i', k, where=f.where(st), fn=f.name, detail='in all four presence combinations every line that is there is part of the commission')
+    if n < 2:
+        rep.violation('R19i', 'anchor-lost:confirmation-commissions', detail='anchor lost: only %d BrokerTx constructions with optional commission / fee lines found (2 layouts expected)' % n)
